@@ -25,7 +25,7 @@ for p in props:
         na.append({'property_id': pid, 'reason': claims['not_applicable'].get(pid, 'model not built yet in this round; never claimed on the strength of testing alone')})
 man = {
     'version': 1,
-    'setup_cmd': 'cd /verif/coq && ./mkproject.sh && timeout 3000 make -j16',
+    'setup_cmd': 'cd /verif && /venv/bin/python harness/build_all.py',
     'hooks': {
         'guard': 'PYTENET_VERIF',
         'enable': 'no source hooks: the harness wraps numpy/scipy/pytenet attributes from outside the package (harness/record.py); the guard variable is reserved and unused',
